@@ -178,7 +178,7 @@ pub fn standard_components() -> Value {
         "simulated": [
             "operating-system socket API (std::net inside socket.rs swapped for the simulator backend under --cfg gamedig_verif)",
             "network (latency, loss, duplication, reordering, truncation to the receive buffer, bit flips)",
-            "virtual clock (timeouts cost no wall time)",
+            "virtual clock (timeouts cost no wall time; a std::thread::sleep of the code under test would advance it: clock_nanosleep is defined by the simulator's executables)",
             "game / master servers (reference models and hostile scripts)"
         ],
         "stubbed": ["in some Eco cases the whole HTTP request is served at the HttpClient seam instead (request-level stub; the other Eco cases run the real HTTP client)"]
